@@ -167,7 +167,8 @@ class Driver:
 
     def pool(self, k):
         """Data names: shared between holes; in plan mode one pool per table, so that a label belongs to one table name."""
-        return POOL if self.plan is None else [f"{p}{k}" for p in POOL[:4]]
+        # (free naming also uses column names that spell a word of the file format: "Unknown" is an everyday lithology column)
+        return POOL + ["Unknown", "Text", "Data"] if self.plan is None else [f"{p}{k}" for p in POOL[:4]]
 
     # -- access ------------------------------------------------------------------------------------------
     def hole(self, u):
